@@ -657,6 +657,32 @@ def check(ctx):
     check_visible_signature(ctx, classes)
     # remote_* options exist
     opts = prog.options()
+    # the encoding is picked by comparing the option's value with one of
+    # its choices: the option has to hand the choice back as it is spelled
+    # there (ignore_case=True accepts other spellings and returns them
+    # unchanged, and an `==` against the lower-case literal then fails)
+    oc = opts.get('remote_content_type')
+    if oc is not None:
+        ic = kwarg(oc['node'], 'ignore_case')
+        loose = ic is not None and not is_const(ic, False)
+        if loose:
+            cmps = [c for m in prog.modules.values() for c in ast.walk(m.tree)
+                    if isinstance(c, ast.Compare)
+                    and 'remote_content_type' in U(c)]
+            if cmps and all('.lower()' in U(c) or '.casefold()' in U(c)
+                            for c in cmps):
+                loose = False       # compared without regard to case
+        ctx.ob('C16.PAYLOAD', not loose, ctx.where(
+            prog.module(PKG + '.opts'), oc['node']), PKG + '.opts._options',
+            'option remote_content_type ignore_case=%s' % (
+                U(ic) if ic is not None else 'default'),
+            'the configured value is one of the declared choices, spelled '
+            'as declared' if not loose else
+            'the option accepts its choices in any letter case and returns '
+            'the operator\'s spelling: `Application/X-WWW-Form-Urlencoded` '
+            'is accepted, compares unequal to the declared choice, and the '
+            'request goes out JSON-encoded although form encoding was '
+            'configured')
     for o in ('remote_content_type', 'remote_timeout'):
         ctx.ob('C16.ENTRY', o in opts, 'oslo_policy/opts.py:1',
                PKG + '.opts._options', 'option ' + o, 'declared'
